@@ -235,8 +235,8 @@ TIER = ["quick"]
 
 
 def _deep(p):
-    """the most expensive exponents (2^-2p, 2^-1000 at p >= 600) are left to the thorough tier"""
-    return TIER[0] == "thorough" or p <= 420
+    """the most expensive exponents (2^-2p, 2^-1000 at p >= 600) are left to the thorough tier (there up to p = 1000)"""
+    return (TIER[0] == "thorough" and p <= 1000) or p <= 420
 
 
 def g_tiny(rng, p, signed=True):
@@ -584,7 +584,7 @@ def generate(rng, tier_, n_calls, fns=None, only=None):
 def run(rep, tier_, rng):
     load_known_b(rep)
     TIER[0] = tier_
-    n_calls = 180 if tier_ == "quick" else 2600
+    n_calls = 180 if tier_ == "quick" else 2200
     t0 = time.time()
     focus = [f for f in os.environ.get("VERIF_C12_FUNCS", "").split(",") if f in R] or None   # debugging aid: sample only these
     insts, calls, direct, stats = generate(rng, tier_, n_calls, fns=focus)
